@@ -203,20 +203,24 @@ func (c patComp) build(rng *rand.Rand) string {
 	case "starjunk":
 		port = ":*8"
 	}
+	long := ""
+	if rng.Intn(3) == 0 { // the defect may be arbitrarily long: the error must still name the WHOLE string
+		long = strings.Repeat("0123456789abcdef", 70+rng.Intn(200))
+	}
 	s := scheme + sep
 	if c.Tail == "userinfo" {
-		s += "user@"
+		s += "user" + long + "@"
 	}
 	s += host + port
 	switch c.Tail {
 	case "slash":
 		s += "/"
 	case "path":
-		s += "/path"
+		s += "/path" + long
 	case "query":
-		s += "?q=1"
+		s += "?q=1" + long
 	case "fragment":
-		s += "#f"
+		s += "#f" + long
 	case "wsbefore":
 		s = " " + s
 	case "wsafter":
